@@ -454,7 +454,7 @@ package mqtt
 // ghost trace of the messages handed to the retained store (axiom clauses), and what the store holds afterwards (C05)
 // verif:func mqtt.Server.retainMessage
 //@ requires s.Options != nil && s.Options.Capabilities != nil && s.hooks != nil && s.Info != nil && retainOK(s)
-//@ modifies nretain, retainpk, entries(s.Topics.Retained.internal), allentries("string", "*particle"), all(particle.retainPath), s.Topics.Retained.ggot, s.Info.Retained
+//@ modifies nretain, retainpk, entries(s.Topics.Retained.internal), allentries("string", "*particle"), all(particle.retainPath), s.Topics.Retained.ggot, s.Info.Retained, nretaincalls
 //@ axiom (s.Options.Capabilities.RetainAvailable == 0 || pk.Ignore) ==> nretain == old(nretain)
 //@ axiom !(s.Options.Capabilities.RetainAvailable == 0 || pk.Ignore) ==> nretain == old(nretain) + 1 && retainpk[old(nretain)] == pk
 //@ ensures C05-nothing-is-retained-while-retain-is-unavailable: s.Options.Capabilities.RetainAvailable == 0 || pk.Ignore ==> (forall t string :: (has(rmap(s.Topics), t) <==> old(has(rmap(s.Topics), t))) && rmap(s.Topics)[t] == old(rmap(s.Topics)[t]))
@@ -1074,11 +1074,14 @@ package mqtt
 //@ ensures fresh(r0) || old(allocated(r0))
 //@ ensures fresh(r0) ==> emptyNode(r0) && (forall c string :: !has(r0.subscriptions.internal, c)) && (forall k int :: !has(r0.inlineSubscriptions.internal, k))
 //@ ensures old(wfTrie() && nodesValid()) ==> wfTrie() && nodesValid()
+// every call of RetainMessage is counted (ghost)
+// verif:ghost var nretaincalls int
 // verif:func mqtt.TopicsIndex.RetainMessage
+//@ axiom nretaincalls == old(nretaincalls) + 1
 //@ requires C32-no-lock-held-by-this-goroutine: forall m ref :: m.lheld == 0
 //@ ensures C32-every-lock-released-on-return: forall m ref :: m.lheld == 0
 //@ requires x.Retained != nil && x.Retained.internal != nil && x.root != nil && wfTrie() && nodesValid()
-//@ modifies entries(x.Retained.internal), allentries("string", "*particle"), all(particle.retainPath), x.Retained.ggot
+//@ modifies entries(x.Retained.internal), allentries("string", "*particle"), all(particle.retainPath), x.Retained.ggot, nretaincalls
 //@ ensures C05-message-with-payload-replaces-the-retained-one: len(pk.Payload) > 0 ==> r0 == 1 && has(rmap(x), pk.TopicName) && rmap(x)[pk.TopicName] == pk
 //@ ensures C05-empty-payload-deletes-the-retained-message: len(pk.Payload) == 0 ==> !has(rmap(x), pk.TopicName) && (r0 == 0 || r0 == -1)
 //@ ensures C05-other-topics-untouched: forall t string :: t != pk.TopicName ==> (has(rmap(x), t) <==> old(has(rmap(x), t))) && rmap(x)[t] == old(rmap(x)[t])
@@ -1457,8 +1460,9 @@ package mqtt
 // verif:func mqtt.Server.loadRetained modifies=all
 //@ requires serverObjects(s)
 //@ callsite mqtt.TopicsIndex.RetainMessage C20-a-restored-retained-message-is-put-back-under-its-topic: arg0 == s.Topics && arg1.TopicName == msg.TopicName && sameBytes(arg1.Payload, msg.Payload) && arg1.FixedHeader.Qos == msg.FixedHeader.Qos && arg1.Created == msg.Created && arg1.Expiry == msg.Expiry && arg1.ProtocolVersion == msg.Version
+//@ ensures C20-every-stored-retained-message-is-put-back: nretaincalls == old(nretaincalls) + len(v)
 // verif:loop mqtt.Server.loadRetained 1
-//@ invariant serverObjects(s)
+//@ invariant serverObjects(s) && nretaincalls == old(nretaincalls) + rangeindex + 1
 // the order of the restart path: subscriptions and in-flight messages are attached to restored sessions, which are looked up in the
 // client registry, so the sessions must have been restored first (whenever a hook provides stored clients at all)
 // verif:ghost var sessionsRestored bool
